@@ -1,8 +1,184 @@
-(* C18 - Rendering a DataFrame never fails and shows the right rows. *)
+(* C18 - Rendering a DataFrame never fails and shows the right rows.
+   Property theorems only; each is closed by [exact] of a lemma from Proofs/C18*.v and
+   followed by Print Assumptions.  The definitions are those of Model/C18.v, the same ones
+   the correspondence evaluates (shown_lines, type_formatter, cut_lines, ascii_table,
+   df_str, pw). *)
+From Coq Require Import String.
 From Coq Require Import List NArith ZArith Bool Arith.
 From Orso Require Import Model.C18 Proofs.C18.
 Import ListNotations.
+Local Open Scope list_scope.
 
-Theorem C18_blob_decode_total : forall bs : list N, exists t, utf8_decode true bs = Ok t.
-Proof. exact blob_decode_total. Qed.
-Print Assumptions C18_blob_decode_total.
+(* ---------------- (a) the rows shown and their labels ---------------- *)
+
+(* For every frame, every limit >= 1, head-only and top-and-tail, eager and lazily backed
+   (the islice/deque path included): what ascii_table's selection and its two labelling loops
+   produce is exactly the property's description [spec_lines] - the first `limit` rows
+   numbered from 1 (head-only); all rows numbered from 1 when n <= 2*limit; otherwise the
+   first `limit` rows, ONE ellipsis line, the last `limit` rows numbered n-limit+1 .. n. *)
+Theorem C18_rows_shown :
+  forall (A : Type) (l : list A) (limit : nat) (tt lz : bool),
+  1 <= limit -> shown_lines l limit tt lz = spec_lines l limit tt.
+Proof. exact (@shown_lines_spec). Qed.
+Print Assumptions C18_rows_shown.
+
+(* Each label is the row's true 1-based position in the frame. *)
+Theorem C18_labels_true_position :
+  forall (A : Type) (l : list A) (limit : nat) (tt lz : bool) (lab : nat) (r : A),
+  1 <= limit -> In (LRow lab r) (shown_lines l limit tt lz) ->
+  1 <= lab /\ nth_error l (lab - 1) = Some r.
+Proof. exact (@labels_true_position). Qed.
+Print Assumptions C18_labels_true_position.
+
+(* Closed form: rows, labels and the number (and place) of ellipsis lines. *)
+Theorem C18_rows_labels_ellipsis :
+  forall (A : Type) (l : list A) (limit : nat) (tt lz : bool),
+  1 <= limit ->
+  let n := length l in
+  let ls := shown_lines l limit tt lz in
+  (tt = false ->
+     rows_of ls = firstn limit l /\ labels_of ls = seq 1 (Nat.min limit n) /\ ellipses ls = 0) /\
+  (tt = true -> n <= 2 * limit ->
+     rows_of ls = l /\ labels_of ls = seq 1 n /\ ellipses ls = 0) /\
+  (tt = true -> 2 * limit < n ->
+     rows_of ls = firstn limit l ++ skipn (n - limit) l /\
+     labels_of ls = seq 1 limit ++ seq (n - limit + 1) limit /\
+     ellipses ls = 1 /\
+     nth_error ls limit = Some LEllipsis).
+Proof. exact (@shown_rows_labels_ellipsis). Qed.
+Print Assumptions C18_rows_labels_ellipsis.
+
+(* ---------------- (b) never fails ---------------- *)
+
+(* Full statement (not provable in any model): for ANY Python object in a cell the renderings
+   complete.  Proved: for every value of the enumerated kinds (null, bool, int, float, Decimal,
+   text of any code points, date, datetime, bytes of any content, dict, interval, list/tuple,
+   other objects rendered through str(), NumPy ints/floats/bools/other scalars, arrays,
+   timedelta64) except a timedelta64 that is NaT or counted in months/years (F-C18-3), the cell
+   formatter returns Ok for every width.  Outside: arbitrary objects whose str() raises. *)
+Theorem C18_formatter_total_partial :
+  forall (c : cell) (w : nat), td_ok (cv c) -> exists t, type_formatter c w = Ok t.
+Proof. exact type_formatter_total. Qed.
+Print Assumptions C18_formatter_total_partial.
+
+(* ... and the formatter raises on nothing else. *)
+Theorem C18_formatter_raises_only_on_timedelta64 :
+  forall (c : cell) (w : nat) (e : exn), type_formatter c w = Raise e ->
+  exists is_nat linear ns, cv c = VNpTimedelta is_nat linear ns /\ (is_nat = true \/ linear = false).
+Proof. exact type_formatter_raises. Qed.
+Print Assumptions C18_formatter_raises_only_on_timedelta64.
+
+(* bytes of ANY content (valid UTF-8 or not) format without error (F-C18-2, fixed) *)
+Theorem C18_bytes_any_content_total :
+  forall (bs : list N) (cs : option text) (w : nat),
+  exists t, type_formatter (mkcell (VBytes bs) cs) w = Ok t.
+Proof. exact blob_cell_total. Qed.
+Print Assumptions C18_bytes_any_content_total.
+
+(* the whole table and str(): Ok whenever no cell is a NaT / month-year timedelta64 *)
+Theorem C18_display_total_partial :
+  forall (f : frame) (cfg : config), 1 <= limit cfg -> cells_ok f -> exists t, ascii_table f cfg = Ok t.
+Proof. exact ascii_table_total. Qed.
+Print Assumptions C18_display_total_partial.
+
+Theorem C18_str_total_partial :
+  forall (f : frame) (cols : nat), cells_ok f -> exists t, df_str f cols = Ok t.
+Proof. exact df_str_total. Qed.
+Print Assumptions C18_str_total_partial.
+
+Theorem C18_display_raises_only_on_timedelta64 :
+  forall (f : frame) (cfg : config) (e : exn), 1 <= limit cfg -> ascii_table f cfg = Raise e ->
+  exists r c is_nat linear ns, In r (rows f) /\ In c r /\
+    cv c = VNpTimedelta is_nat linear ns /\ (is_nat = true \/ linear = false).
+Proof. exact ascii_table_raises. Qed.
+Print Assumptions C18_display_raises_only_on_timedelta64.
+
+(* F-C18-3: a NaT timedelta64 raises ValueError, a month-unit one TypeError *)
+Theorem C18_timedelta64_nat_refuted :
+  exists (c : cell) (w : nat), type_formatter c w = Raise ValueError.
+Proof. eexists; eexists; exact nat_timedelta_raises. Qed.
+Print Assumptions C18_timedelta64_nat_refuted.
+
+Theorem C18_timedelta64_month_refuted :
+  exists (c : cell) (w : nat), type_formatter c w = Raise TypeError.
+Proof. eexists; eexists; exact month_timedelta_raises. Qed.
+Print Assumptions C18_timedelta64_month_refuted.
+
+(* ---------------- (c) equal printed width ---------------- *)
+
+(* Full statement: for printable-ASCII names, type names and cells, all box lines of the
+   OUTPUT have the same printed width <= display width.
+   Proved: for every rectangular frame with printable-ASCII content, limit, max column width
+   and display width >= 1: every box line handed to colorizer (after the display-width cut) has
+   printed width exactly min(table width, display width), colour tokens counted as zero width
+   as trunc_printable itself counts them.  Missing: (1) that colorizer turns exactly the tokens
+   into zero-width escape sequences / nothing - false when the content contains the six
+   characters \u0001 (F-C18-4, refuted below), otherwise checked by the correspondence and the
+   oracle only; (2) lazily backed head-only rendering of 100 or more rows, where the label
+   outgrows the index column (F-C18-5, refuted below): [frame_guard]. *)
+Theorem C18_box_lines_equal_width_partial :
+  forall (f : frame) (cfg : config) (cuts : list (lkind * text)),
+  frame_ok f -> pframe f -> 1 <= limit cfg -> 1 <= mcw cfg -> 1 <= dwidth cfg -> frame_guard f cfg ->
+  cut_lines f cfg = Ok cuts ->
+  forall ln, In (KBox, ln) cuts -> pw ln = Nat.min (table_width f cfg) (dwidth cfg).
+Proof. exact box_lines_cut_width. Qed.
+Print Assumptions C18_box_lines_equal_width_partial.
+
+Theorem C18_box_lines_within_display_partial :
+  forall (f : frame) (cfg : config) (cuts : list (lkind * text)),
+  frame_ok f -> pframe f -> 1 <= limit cfg -> 1 <= mcw cfg -> 1 <= dwidth cfg -> frame_guard f cfg ->
+  cut_lines f cfg = Ok cuts ->
+  forall l1 l2, In (KBox, l1) cuts -> In (KBox, l2) cuts -> pw l1 = pw l2 /\ pw l1 <= dwidth cfg.
+Proof. exact box_lines_within_display. Qed.
+Print Assumptions C18_box_lines_within_display_partial.
+
+(* the cut itself, for any well-formed markup: trunc_printable's accounting is exact *)
+Theorem C18_trunc_printable_width :
+  forall (s : text) (k w : nat), wf s k -> 1 <= w ->
+  pw (trunc_printable s w true) = w /\ pw (trunc_printable s w false) = Nat.min k w.
+Proof. exact trunc_printable_width. Qed.
+Print Assumptions C18_trunc_printable_width.
+
+(* F-C18-5: a generator-backed frame of 100 rows rendered head-only with limit 100 has box
+   lines of different printed widths (label "100" in a 2-column index field) *)
+Theorem C18_lazy_head_only_width_refuted :
+  exists (f : frame) (cfg : config), frame_ok f /\ pframe f /\
+  exists cuts l1 l2, cut_lines f cfg = Ok cuts /\ In (KBox, l1) cuts /\ In (KBox, l2) cuts /\ pw l1 <> pw l2.
+Proof. exists f5, cfg5. exact lazy_head_only_overflow. Qed.
+Print Assumptions C18_lazy_head_only_width_refuted.
+
+(* F-C18-4: printable-ASCII content containing \u0001OFFm: the two data lines have the same
+   printed width before colorizer and different lengths after it (colour off, so length =
+   printed width) *)
+Theorem C18_literal_u0001_width_refuted :
+  exists (f : frame) (cfg : config), frame_ok f /\ pframe f /\ frame_guard f cfg /\
+  exists cuts l1 l2, cut_lines f cfg = Ok cuts /\ In (KBox, l1) cuts /\ In (KBox, l2) cuts /\
+    pw l1 = pw l2 /\ length (colorizer l1 false) <> length (colorizer l2 false).
+Proof. exists f4, cfg4. exact literal_u0001_breaks_width. Qed.
+Print Assumptions C18_literal_u0001_width_refuted.
+
+(* ---------------- non-vacuity ---------------- *)
+(* a lazily backed 7-row frame with a typed schema and a list column satisfies every
+   hypothesis above; limit 2 shows rows 1 2 ... 6 7 *)
+Example C18_nonvacuous_hypotheses : frame_ok fx /\ pframe fx /\ frame_guard fx cfgx /\ cells_ok fx.
+Proof. exact fx_hypotheses. Qed.
+
+Example C18_nonvacuous_labels :
+  labels_of (shown_lines (rows fx) (limit cfgx) (top_tail cfgx) (lazy fx)) = [1; 2; 6; 7] /\
+  ellipsis_at (shown_lines (rows fx) (limit cfgx) (top_tail cfgx) (lazy fx)) 0 = [2].
+Proof. split; reflexivity. Qed.
+
+Example C18_nonvacuous_widths :
+  match cut_lines fx cfgx with
+  | Ok cuts => map (fun l => pw (snd l)) cuts = [25; 25; 25; 25; 25; 25; 3; 25; 25; 25] /\ table_width fx cfgx = 30
+  | Raise _ => False
+  end.
+Proof. vm_compute. split; reflexivity. Qed.
+
+(* the F-C18-2 witness under the decoder without errors="replace" *)
+Example C18_strict_decode_raises : utf8_decode false [255%N; 254%N] = Raise UnicodeDecodeError.
+Proof. exact strict_decode_raises. Qed.
+
+(* well-formed markup exists with tokens inside: a coloured cell *)
+Example C18_nonvacuous_wf : wf (tok "INTEGER" ++ T "  42" ++ OFF) 4.
+Proof. apply wfb_wf. vm_compute. reflexivity. Qed.
